@@ -267,6 +267,16 @@ def run(ctx):
             okpass = any(b.replace(" ", "") == f"{R}[{V}]={P_DS}[{V}]" for b in body) and body[-1] == "continue"
     ctx.expect(okpass, "R13.4", "interpolate_dataset_along_axis[pass-through]",
                "variables without the interpolated coordinate are copied unchanged", fa.loc())
+    # every variable is interpolated with its own settings: nothing assigned in one iteration of the per-variable loop may be
+    # read by a later iteration before that iteration assigns it
+    from .fc import carried_locals
+    for lp_ in loop:
+        leaks = carried_locals(lp_)
+        ctx.expect(not leaks, "R13.4", "interpolate_dataset_along_axis[per-variable state]",
+                   "no local of the per-variable loop carries a value from one variable to the next" if not leaks else
+                   "; ".join(f"`{n}` (read at line {ln}) keeps the value a previous variable assigned when this variable does not "
+                             "assign it: a periodic variable's settings leak into the variables after it" for n, ln in leaks),
+                   fa.loc(lp_), derived=", ".join(n for n, _ in leaks))
     tconv = [n for n in own_walk(fa.node) if isinstance(n, ast.If) and ast.unparse(n.test) in (f"{P_CN} == 'time'",)]
     okt = any(f"to_datetime64({P_CV})" in ast.unparse(s) for t in tconv for s in t.body)
     ctx.expect(okt, "R13.4", "interpolate_dataset_along_axis[time targets]", "time targets are converted with to_datetime64", fa.loc())
@@ -399,7 +409,7 @@ def run(ctx):
     ctx.require_count("R13.1", 3)
     ctx.require_count("R13.2", 14)
     ctx.require_count("R13.3", 7)
-    ctx.require_count("R13.4", 4)
+    ctx.require_count("R13.4", 5)
     ctx.require_count("R13.5", 14)
     ctx.require_count("R13.6", 10)
 
